@@ -337,7 +337,9 @@ void h_reprio(void)
     ASSUME(idx0 != 0u);                          /* documented precondition: the key is enqueued */
     const struct cmi_heap_tag e0 = *AT(idx0);
     const double dk = nondet_double(); const int64_t ik = nondet_i64();
+    const struct cmi_heap_tag slot0 = HP.heap[0];
     cmi_hashheap_reprioritize(&HP, k, dk, ik);
+    OBT(T, cmv_same_entry(&HP.heap[0], &slot0), "slot 0 (the current item) survives reprioritize");
     OBT(T, cmv_wf(&HP), "reprioritize preserves the representation invariant (heap order restored)");
     OBT(T, HP.heap_count == cmv_count0, "count unchanged");
     const uint64_t ni = cmv_index_of(&HP, k);
